@@ -187,6 +187,7 @@ func vmCorpus() []vmProg {
 		{"subst", "text t\n/K1=(\\w+)/ {\n  t = subst(\"a\", \"b\", $1)\n}\n", false},
 		{"pow", "gauge g\n/K1=(\\d+)/ {\n  g = $1 ** 2\n}\n", false},
 		{"bitops", "gauge g\n/K1=(\\d+) K2=(\\d+)/ {\n  g = ($1 & $2) | ($1 ^ 3)\n}\n", false},
+		{"orcap", "counter c by k\nconst TAGGED /K2=(?P<t>\\w+)/\n/K1=(\\w+)/ {\n  $1 == \"a\" || TAGGED {\n    c[$t]++\n  }\n}\n", true},
 		{"capother", "counter c by k\n/K1=(\\w+)/ {\n  c[$1]++\n} else {\n  c[$1]++\n}\n", true},
 	}
 }
